@@ -48,6 +48,12 @@ namespace Pistache::Tcp
 
     void Transport::flush()
     {
+        // Only the thread that runs this transport may drain its queues and touch its tables.
+        // A buffer queued from another thread (a handler streaming its response from a worker
+        // of its own) has already woken that thread up through the queue's eventfd.
+        if (std::this_thread::get_id() != context().thread())
+            return;
+
         handleWriteQueue(true);
     }
 
